@@ -112,6 +112,40 @@ def run(args) -> int:
                 for extra in (['P', 1, 0, [m_]], ['P', 2, 0, [m_, m_]], ['P', 1, 0, [n_]], ['P', -1, 0, [n_, ['c', 2, 0]]]):
                     jobs.append(dict(base, role='monotone', group=gid, extra=extra))
                     jobs.append(dict(base, role='monotone', group=gid, extra=extra, extra_front=True))
+        # renaming symbols that share an index and differ only in the subscript (a vs a1, F vs F1, m vs m1): the two
+        # are different symbols before and after (renamed apart to different indexes)
+        for prems, concl, rn in (
+                ([['A', 5]], ['A', 0], dict(atoms={'0,1': [3, 0]}, consts={}, vars={}, preds={})),       # a1 |- a
+                ([['B', 'Conjunction', ['A', 5], ['U', 'Negation', ['A', 0]]]], ['A', 1],
+                 dict(atoms={'0,1': [3, 0]}, consts={}, vars={}, preds={}))):
+            gid = len(jobs)
+            base = dict(logic=n, premises=prems, conclusion=concl, configs=CFG, timeout_ms=2500)
+            jobs.append(dict(base, role='base', group=gid))
+            jobs.append(dict(base, role='rename', group=gid, rename=rn))
+        if L['quantified']:
+            m0, m1 = ['c', 0, 0], ['c', 0, 1]
+            for prems, concl, rn in (
+                    ([['P', 0, 1, [m0]]], ['P', 0, 0, [m0]], dict(atoms={}, consts={}, vars={}, preds={'0,1,1': [2, 0]})),
+                    ([['B', 'Conjunction', ['P', 0, 1, [m0]], ['U', 'Negation', ['P', 0, 0, [m0]]]]], ['A', 0, 0],
+                     dict(atoms={}, consts={}, vars={}, preds={'0,1,1': [2, 0]})),
+                    ([['P', 0, 0, [m1]]], ['P', 0, 0, [m0]], dict(atoms={}, consts={'0,1': [2, 0]}, vars={}, preds={}))):
+                gid = len(jobs)
+                base = dict(logic=n, premises=prems, conclusion=concl, configs=CFG, timeout_ms=2500)
+                jobs.append(dict(base, role='base', group=gid))
+                jobs.append(dict(base, role='rename', group=gid, rename=rn))
+            # monotonicity with universal premises that introduce constants of their own, appended and prepended
+            Fx_, Gx_, Hx_ = (['P', k_, 0, [['v', 0, 0]]] for k_ in (0, 1, 2))
+            Fm_, Gm_, Hm_ = (['P', k_, 0, [m0]] for k_ in (0, 1, 2))
+            base_p = [['Q', 'Universal', 0, ['B', 'Conditional', Fx_, Gx_]]]
+            base_c = ['B', 'Conditional', Fm_, Gm_]
+            gid = len(jobs)
+            base = dict(logic=n, premises=base_p, conclusion=base_c, configs=CFG, timeout_ms=2500)
+            jobs.append(dict(base, role='base', group=gid))
+            for extra in (['Q', 'Universal', 0, ['B', 'Disjunction', Hx_, Hm_]],
+                          ['Q', 'Universal', 0, ['B', 'Disjunction', Hx_, ['P', 2, 0, [['c', 1, 0]]]]],
+                          ['Q', 'Existential', 0, ['B', 'Conjunction', Hx_, Hm_]]):
+                jobs.append(dict(base, role='monotone', group=gid, extra=extra))
+                jobs.append(dict(base, role='monotone', group=gid, extra=extra, extra_front=True))
         if L['quantified']:
             Fb = ['P', 0, 0, [['c', 1, 0]]]; Fx = ['P', 0, 0, [['v', 0, 0]]]; Ga = ['P', 1, 0, [['c', 0, 0]]]
             fixed = [([['U', 'Negation', Fb], ['Q', 'Existential', 0, Fx]], Ga),
